@@ -47,9 +47,25 @@ func idHas(ids, id string) bool {
 func Judge(sc *Scenario, mr *ModelRun, out *Outcome) []Finding {
 	var fs []Finding
 	add := func(prop, key, format string, a ...any) {
-		fs = append(fs, Finding{prop, key, fmt.Sprintf(format, a...)})
+		d := fmt.Sprintf(format, a...)
+		if len(d) > 900 {
+			d = d[:900] + "…"
+		}
+		fs = append(fs, Finding{prop, key, d})
 	}
 	kn := func(node int) string { return KindNames[sc.Nodes[node].Kind] }
+	if out.Runaway {
+		add("C03", "runaway", "the run was still going after %d callbacks; the connection table and the nodes' scripts determine a path of %d callbacks", RunawayLimit, func() int {
+			if mr != nil {
+				return len(mr.Keys)
+			}
+			return -1
+		}())
+		if sc.MaxNesting() >= 2 {
+			add("C10", "runaway", "nested arrangement did not terminate where its table ends (cut off after %d callbacks)", RunawayLimit)
+		}
+		return fs
+	}
 	if out.Panic != "" {
 		add("C01", "panic", "Run panicked: %s", out.Panic)
 		return fs
@@ -69,6 +85,9 @@ func Judge(sc *Scenario, mr *ModelRun, out *Outcome) []Finding {
 		k := kn(sg.node)
 		scr := scriptOf(spec, sg.visit)
 		last := si == len(segs)-1
+		if spec.Kind == KBatch {
+			continue // batch lifecycles are C06's; here a batch node only takes part in routing / errors / cancellation
+		}
 		// --- C01: phase structure --------------------------------------------------
 		if sg.evs[0].Phase != "prep" {
 			add("C01", "no-prep:"+k, "node %d visit %d: first callback is %s, prep was not called first", sg.node, sg.visit, sg.evs[0].Phase)
@@ -126,7 +145,7 @@ func Judge(sc *Scenario, mr *ModelRun, out *Outcome) []Finding {
 		}
 		if lastExecPhase != nil {
 			produced := lastExecPhase.Ret == ""
-			if produced && nPost == 0 && out.CancelSeq < 0 {
+			if produced && nPost == 0 {
 				add("C01", "post-missing:"+k, "node %d visit %d: exec phase produced a result but post was not called", sg.node, sg.visit)
 			}
 			if !produced && nPost > 0 {
